@@ -531,17 +531,21 @@ func c17RequestObject(c *Ctx) {
 		}
 		n++
 		empty := false
+		isClaim := func(t *Term) bool {
+			return t.Mentions(func(x *Term) bool {
+				return x.Op == "lookup" && len(x.Args) == 2 && x.Args[1].Key() == tStr("request_uri").Key() && x.Args[0].Mentions(func(s *Term) bool { return s.Op == "field" && s.Name == "Claims" })
+			})
+		}
 		for _, f := range p.Facts {
-			if f.Atom.Kind != "EQ" || !f.Pol {
-				continue
-			}
-			for _, pr := range [][2]*Term{{f.Atom.A, f.Atom.B}, {f.Atom.B, f.Atom.A}} {
-				if pr[1].Key() != tStr("").Key() {
+			for _, side := range []*Term{f.Atom.A, f.Atom.B} {
+				if side == nil {
 					continue
 				}
-				if pr[0].Mentions(func(t *Term) bool {
-					return t.Op == "lookup" && len(t.Args) == 2 && t.Args[1].Key() == tStr("request_uri").Key() && t.Args[0].Mentions(func(s *Term) bool { return s.Op == "field" && s.Name == "Claims" })
-				}) {
+				cand := side
+				if side.IsCall("len") && len(side.Args) == 1 {
+					cand = side.Args[0]
+				}
+				if isClaim(cand) && p.EmptyStr(cand) {
 					empty = true
 				}
 			}
